@@ -865,6 +865,9 @@ def gen_cli_args(rng, n):
                 args.append(b"-i" + v)
             else:
                 args += [b"-i", v]
+        for _ in range(rng.choice([0, 0, 0, 1, 2])):
+            f = gen_user_pattern(rng, pool, b"/w/case")
+            args.append(b"--file-filter=" + (f if rng.random() < 0.93 else rng.choice([b"", b"+"])))
         r = rng.random()
         if r < 0.9:
             args.append(rng.choice([b".", b"src", b"lib\\gen", b'"a b"', b"./x/../src/"]))
@@ -886,6 +889,14 @@ def check_cli_args(ctx, res, exe, drv, argsets, name):
         f = o.split(" ")
         ni = int(f[1])
         got = [core.unhx(x) for x in f[2:2 + ni]]
+        nf = int(f[2 + ni])
+        gotf = [core.unhx(x) for x in f[3 + ni:3 + ni + nf]]
+        wantf = [a[14:] for a in args if a.startswith(b"--file-filter=")]
+        if gotf != wantf:
+            bad += 1
+            deviation(res, "--file-filter values %r reach the matcher as %r (documented: verbatim)" % ([L(x) for x in wantf], [L(x) for x in gotf]),
+                      dict(op="cliargs", args=[L(a) for a in args], impl=o), None)
+        res.count("cli:filters=%d" % min(nf, 2))
         # the -i values as written, in order (only well-formed vectors reach here)
         written, i = [], 0
         while i < len(args):
@@ -929,74 +940,73 @@ def gen_cli_case(rng, casedir):
     top = gen_cli_tree(rng)
     allp = tree_paths(top)
     dirs = [p for p, k in allp if k == "d" and b"/" not in p]
-    pats = [gen_user_pattern(rng, allp, casedir) for _ in range(rng.choice([1, 1, 1, 2]))]
+    alld = [p for p, k in allp if k == "d"]
+    pats = [gen_user_pattern(rng, allp, casedir) for _ in range(rng.choice([0, 1, 1, 1, 2]))]
+    filters = []
+    if rng.random() < 0.3:
+        for _ in range(rng.choice([1, 1, 2])):
+            f = gen_user_pattern(rng, allp, casedir)
+            filters.append(f.replace(b'"', b"") if rng.random() < 0.9 else f)
     r = rng.random()
-    if r < 0.6 or not dirs:
+    if r < 0.5 or not dirs:
         targets = [b"."]
-    elif r < 0.85:
+    elif r < 0.7:
         d = rng.choice(dirs)
-        targets = [rng.choice([d, b"./" + d, d + b"/"])]
-    else:
+        targets = [rng.choice([d, b"./" + d, d + b"/", casedir + b"/" + d])]
+    elif r < 0.85:
         targets = sorted(set(rng.sample(dirs, min(2, len(dirs)))))
-    return dict(casedir=casedir, top=top, pats=pats, targets=targets)
+    else:
+        # overlapping path names: the same files are found twice and must be checked once
+        d = rng.choice(alld)
+        targets = rng.choice([[b".", d], [d, b"."], [d, b"./" + d + b"/"], [d.split(b"/")[0], d]])
+    return dict(casedir=casedir, top=top, pats=pats, filters=filters, targets=targets)
 
 
 def cli_case_json(c):
     def tj(nodes):
         return [[n[0], L(n[1])] if n[0] == "f" else [n[0], L(n[1]), tj(n[2])] for n in nodes]
-    return dict(pats=[L(p) for p in c["pats"]], targets=[L(t) for t in c["targets"]], top=tj(c["top"]))
+    return dict(pats=[L(p) for p in c["pats"]], filters=[L(p) for p in c.get("filters", [])], targets=[L(t) for t in c["targets"]], top=tj(c["top"]))
 
 
 def cli_case_from_json(j, casedir):
     def tb(nodes):
         return [("f", n[1].encode("latin-1")) if n[0] == "f" else ("d", n[1].encode("latin-1"), tb(n[2])) for n in nodes]
-    return dict(casedir=casedir, top=tb(j["top"]), pats=[p.encode("latin-1") for p in j["pats"]], targets=[t.encode("latin-1") for t in j["targets"]])
+    return dict(casedir=casedir, top=tb(j["top"]), pats=[p.encode("latin-1") for p in j["pats"]], filters=[p.encode("latin-1") for p in j.get("filters", [])],
+                targets=[t.encode("latin-1") for t in j["targets"]])
+
+
+def cli_argv(c):
+    return [x for p in c["pats"] for x in (b"-i", p)] + [b"--file-filter=" + f for f in c.get("filters", [])] + list(c["targets"])
 
 
 def check_cli_e2e(ctx, res, exe, drv, cases, name, cppcheck=None):
-    """the built cppcheck binary on real trees: `cppcheck -i <u> … <targets>` run inside the tree; the `Checking <file> ...`
-    lines must equal (1) the model's selection (normalisation + lister + simplifyPath) and (2) P_impl: the documented rule
-    applied to the patterns as the user wrote them"""
+    """the built cppcheck binary on real trees: `cppcheck [-i <u>]… [--file-filter=<f>]… <path names>` run inside the tree; the
+    `Checking <file> ...` lines must equal (1) the model's selection `cliSelect` (driver op `clisel`: argument loop,
+    normalisation, lister per path name, file filter, de-duplication, simplifyPath) and (2) P_impl: the documented rules
+    applied to the values as the user wrote them"""
     import subprocess
     binary = cppcheck or ctx.cppcheck
     real = []
     for c in cases:
         make_tree(c["casedir"], c["top"])
-        argv = [binary.encode()] + [x for p in c["pats"] for x in (b"-i", p)] + list(c["targets"])
-        r = subprocess.run(argv, cwd=c["casedir"], stdout=subprocess.PIPE, stderr=subprocess.STDOUT, timeout=300)
-        got = [m.group(1) for m in re.finditer(rb"^Checking (.*) \.\.\.$", r.stdout, re.M)]
-        real.append(got)
-    # model: args -> ignored/pathnames -> listing per path name -> spath
-    argl = ["cli %d %s" % (2 * len(c["pats"]) + len(c["targets"]), " ".join([hx(x) for p in c["pats"] for x in (b"-i", p)] + [hx(t) for t in c["targets"]])) for c in cases]
-    rc, cl, err = run_drv(drv, argl)
-    ls_lines, owner = [], []
-    for k, (c, o) in enumerate(zip(cases, cl)):
-        f = o.split(" ")
-        if f[0] != "S":
-            continue
-        ni = int(f[1]); ign = [core.unhx(x) for x in f[2:2 + ni]]
-        pn = [core.unhx(x) for x in f[3 + ni:]]
-        for t in pn:
-            node = corrected_path(t)
-            node = node[2:] if node.startswith(b"./") else node
-            node = b"" if node == b"." else node
-            lc = dict(casedir=c["casedir"], patharg=t, nodepath=hx(node), base=c["casedir"], ign=ign, extra=[], top=c["top"])
-            ls_lines.append(ls_line(lc)); owner.append(k)
-    rc, lo, err = run_drv(drv, ls_lines) if ls_lines else (0, [], "")
-    model_sel = [[] for _ in cases]
-    for k, o in zip(owner, lo):
-        model_sel[k] += [core.unhx(x.rsplit(":", 1)[0]) for x in o.split(" ")[2:]]
-    flat = [p for sel in model_sel for p in sel]
-    rc, spo, err = run_drv(drv, ["sp " + hx(p) for p in flat]) if flat else (0, [], "")
-    it = iter(spo)
-    model_sel = [[core.unhx(next(it)) for _ in sel] for sel in model_sel]
-    # P_impl: the rule on the user's text
+        r = subprocess.run([binary.encode()] + cli_argv(c), cwd=c["casedir"], stdout=subprocess.PIPE, stderr=subprocess.STDOUT, timeout=300)
+        real.append([m.group(1) for m in re.finditer(rb"^Checking (.*) \.\.\.$", r.stdout, re.M)])
+    # model: the whole selection in Lean
+    ml = []
+    for c in cases:
+        av = cli_argv(c)
+        ml.append(" ".join(["clisel", hx(c["casedir"]), str(len(av))] + [hx(a) for a in av] + [str(len(c["top"]))] + tree_tokens(c["top"])))
+    rc, mo, err = run_drv(drv, ml)
+    if len(mo) != len(ml):
+        raise core.CheckBroken("C31 driver clisel stream: %d lines for %d ops: %s" % (len(mo), len(ml), err[-300:]))
+    model_sel = [[core.unhx(x) for x in o.split(" ")[2:]] if o.startswith("S") else ([] if o == "F" else None) for o in mo]
+    # P_impl: the rules on the user's text
     qlines, plan = [], []
     for c in cases:
         files = []
         for t in c["targets"]:
             root = corrected_path(t.replace(b'"', b"").replace(b"\\", b"/"))
-            rel = root[2:] if root.startswith(b"./") else root
+            rel = root[len(c["casedir"]):] if root.startswith(c["casedir"]) else root
             node = find_node(c["top"], [x for x in rel.split(b"/") if x and x != b"."])
             if node is None:
                 continue
@@ -1014,19 +1024,26 @@ def check_cli_e2e(ctx, res, exe, drv, cases, name, cppcheck=None):
             for d in chain:
                 qs.add((d, "d")); qs.add((d, "r"))
         qs = sorted(qs)
-        plan.append((files, qs))
+        fq = sorted(set(f for root, f, chain in files))
+        plan.append((files, qs, fq))
         for (p, m) in qs:
             for u in c["pats"]:
                 qlines.append("uspec %s %s %s %s" % (m, hx(u), hx(p), hx(c["casedir"])))
+        for f in fq:
+            for flt in c.get("filters", []):
+                qlines.append("spec u r %s %s %s" % (hx(flt), hx(f), hx(c["casedir"])))
     rc, qa, err = run_drv(drv, qlines) if qlines else (0, [], "")
     qi = 0
     bad = 0
-    lines_for_cases = []
-    for c, (files, qs), got, msel in zip(cases, plan, real, model_sel):
+    rows = []
+    for c, (files, qs, fq), got, msel in zip(cases, plan, real, model_sel):
+        npat, nflt = len(c["pats"]), len(c.get("filters", []))
         m = {}
         for q in qs:
-            m[q] = any(qa[qi + j] == "1" for j in range(len(c["pats"]))); qi += len(c["pats"])
-        want = []
+            m[q] = any(qa[qi + j] == "1" for j in range(npat)); qi += npat
+        fm = {}
+        for f in fq:
+            fm[f] = any(qa[qi + j].split(" ")[0] == "1" for j in range(nflt)); qi += nflt
         per_root = {}
         for root, f, chain in files:
             ignored = m[(root, "r")] or any(d != root and (m[(d, "d")] or m[(d, "r")]) for d in chain) or (f != root and m[(f, "r")])
@@ -1034,25 +1051,39 @@ def check_cli_e2e(ctx, res, exe, drv, cases, name, cppcheck=None):
             acc = f == root or ext in (b".c", b".cpp")
             if acc and not ignored:
                 per_root.setdefault(root, []).append(f)
+        want, seen = [], set()
         for t in c["targets"]:
             root = corrected_path(t.replace(b'"', b"").replace(b"\\", b"/"))
-            want += [x[2:] if x.startswith(b"./") else x for x in sorted(per_root.get(root, []))]
-        desc = "cppcheck %s %s in a tree with %s" % (" ".join("-i " + repr(L(p)) for p in c["pats"]), " ".join(L(t) for t in c["targets"]),
-                                                     sorted(L(p) for p, k in tree_paths(c["top"]) if k == "f"))
-        canon = desc
-        res.case(name + "|" + canon, bool(got) and got != [p for p, k in tree_paths(c["top"]) if k == "f"],
-                 dict(tie=name, op=desc, impl=[L(g) for g in got], model=[L(g) for g in msel]) if len(res.samples) < 12 and len(got) > 1 else None)
+            for x in sorted(per_root.get(root, [])):
+                if nflt and not fm[x]:
+                    continue
+                key = os.path.normpath(x if x.startswith(b"/") else c["casedir"] + b"/" + x)
+                if key in seen:
+                    res.count("clie2e:duplicate-dropped")
+                    continue
+                seen.add(key)
+                sp = os.path.normpath(x)
+                want.append(sp)
+        desc = "cppcheck %s in a tree with %s" % (" ".join(repr(L(a)) for a in cli_argv(c)), sorted(L(p) for p, k in tree_paths(c["top"]) if k == "f"))
+        res.case(name + "|" + desc, bool(got) and sorted(got) != sorted(p for p, k in tree_paths(c["top"]) if k == "f"),
+                 dict(tie=name, op=desc, impl=[L(g) for g in got], model=None if msel is None else [L(g) for g in msel]) if len(res.samples) < 12 and len(got) > 1 else None)
         res.count("clie2e:checked=%d" % min(len(got), 5))
         res.count("clie2e:relative-pattern" if any(py_relative_user(p) for p in c["pats"]) else "clie2e:free-pattern")
-        lines_for_cases.append((got == msel, desc, got, msel))
+        if nflt:
+            res.count("clie2e:with-file-filter")
+        if len(c["targets"]) > 1:
+            res.count("clie2e:several-path-names")
+        rows.append((got == msel, desc, got, msel))
         if got != want:
             bad += 1
-            deviation(res, "%s: Checking lines %r, documented rule for the patterns as written selects %r" % (desc, [L(g) for g in got], [L(w) for w in want]),
-                      dict(op="clie2e", case=cli_case_json(c), impl=[L(g) for g in got], documented=[L(w) for w in want], model=[L(g) for g in msel]), None)
-    mism = [x for x in lines_for_cases if not x[0]]
+            deviation(res, "%s: Checking lines %r, documented rules for the values as written select %r" % (desc, [L(g) for g in got], [L(w) for w in want]),
+                      dict(op="clie2e", case=cli_case_json(c), impl=[L(g) for g in got], documented=[L(w) for w in want],
+                           model=None if msel is None else [L(g) for g in msel]), None)
+    mism = [x for x in rows if not x[0]]
     res.traces_validated += len(cases) - len(mism)
     res.oblig("correspondence:" + name, not mism, "correspondence",
-              "" if not mism else "%d of %d command lines differ; first: %s impl=%s model=%s" % (len(mism), len(cases), mism[0][1], [L(g) for g in mism[0][2]], [L(g) for g in mism[0][3]]))
+              "" if not mism else "%d of %d command lines differ; first: %s impl=%s model=%s" %
+              (len(mism), len(cases), mism[0][1], [L(g) for g in mism[0][2]], None if mism[0][3] is None else [L(g) for g in mism[0][3]]))
     return bad
 
 
